@@ -15,6 +15,11 @@ Tie        : correspondence -- real tables (3 snapshots, 3 manifests, 6 data fil
              same comparison: legacy JSON manifests (fallback succeeds; swallowed transient open), a data file listed
              twice + an empty manifest path, entries without checksum, dangling / -1 / null current_snapshot_id
              (second refresh), missing / garbage / legacy pointer (recovery scan).
+Sessions   : the same matrix on ONE handle that has already read the undamaged table twice (through the API under
+             test and through another one, verification on); the damage happens between the reads.  Oracle and model
+             are unchanged -- C14_history_independent: the outcome of a read depends only on the store at the time
+             of the read -- so any state a handle carries between reads (a verified-files cache, cached manifests,
+             a remembered metadata version) shows up as a concrete same-handle:... violation.
 Oracle /   : implementation-only, independent of the model: for damage inside the property (absent, bytes no
 search       parser accepts, transient error that fired) on a file the call touched, the call must raise; when
              the damaged file was not touched the answer must equal the undamaged one; with verification on,
@@ -36,7 +41,7 @@ from harness.lib import coqbuild
 
 LEVEL = "proof"
 THEOREMS = ["C14_fail_closed", "C14_never_partial", "C14_not_empty", "C14_checksum", "C14_untouched",
-            "C14_row_count_metadata_only", "C14_healthy_ok", "C14_fail_closed_full_refuted"]
+            "C14_row_count_metadata_only", "C14_history_independent", "C14_healthy_ok", "C14_fail_closed_full_refuted"]
 REQ = ["DS.Gen.GenRead", "DS.Model.Read"]
 KNOWN_KEY = "current-metadata-file-deleted-serves-previous-version"
 
@@ -47,7 +52,9 @@ MANIFEST_ENTRY = {
                   "exception classes are regenerated from file_manager.py on every run and whose call order is pinned "
                   "by golden ASTs of 25 functions; the model's outcome, storage-call trace and generator prefix are "
                   "compared with the real library on every reachable file x damage class x API x verify; "
-                  "implementation-only oracles search for a read that returns although a touched file is damaged",
+                  "implementation-only oracles search for a read that returns although a touched file is damaged, "
+                  "both on fresh handles and on a handle that has already read the undamaged table (same-handle sessions: "
+                  "read, damage, read again; C14_history_independent)",
     "level_note": "C14_fail_closed excludes one case, kept visible as C14_fail_closed_full + _refuted: the current "
                   "metadata file deleted while the pointer names it (refresh() recovers the previous version, as C10 "
                   "demands) -- known finding " + KNOWN_KEY + ". Hypothesis json_not_avro (bytes the JSON fallback "
@@ -495,7 +502,13 @@ def classify(kind: str, b: bytes) -> Any:
                     res = ("ok", [row_id(r) for r in t.to_pylist()])
                 except Exception:
                     res = ("fail", [], True)        # to_pylist() of the combined table fails
+        elif kind == "parquet:raw-batches":
+            import pyarrow.parquet as pq
+            pf = pq.ParquetFile(io.BytesIO(b))
+            res = ("ok", sum(bt.num_rows for bt in pf.iter_batches(batch_size=2)))
         elif kind.startswith("parquet:"):
+            # the generator APIs: ParquetFile.iter_batches + to_pylist per batch, then the library's guard that the
+            # file produced as many rows as its own footer declares
             import pyarrow as pa
             import pyarrow.parquet as pq
             bs = int(kind.split(":")[1])
@@ -504,7 +517,7 @@ def classify(kind: str, b: bytes) -> Any:
                 pf = pq.ParquetFile(io.BytesIO(b))
                 for batch in pf.iter_batches(batch_size=bs):
                     got.extend(row_id(r) for r in pa.Table.from_batches([batch]).to_pylist())
-                res = ("ok", got)
+                res = ("ok", got) if len(got) == pf.metadata.num_rows else ("fail", got, False)
             except Exception:
                 res = ("fail", got, False)
         elif kind == "meta":
@@ -662,6 +675,31 @@ def damages_for(inv: Inventory, path: str, tier: str, rng: random.Random) -> Lis
         flips |= set(range(0, n, max(1, n // 32)))
     for o in sorted(x for x in flips if 0 <= x < n):
         out.append({"name": f"flip@{o}", "class": "flip", "writes": {path: orig[:o] + bytes([orig[o] ^ 0xFF]) + orig[o + 1:]}})
+    if role == "data":
+        # flips inside a value page that still parse as parquet and change a cell: invisible to every parser,
+        # visible only to the checksum
+        base = classify("parquet:scan", orig)
+        found = 0
+        for o in range(4, min(n, 400)):
+            if o in flips:
+                continue
+            r = classify("parquet:scan", orig[:o] + bytes([orig[o] ^ 0xFF]) + orig[o + 1:])
+            if r[0] == "ok" and r[1] != base[1]:
+                out.append(dict(damage_by_name(inv, path, f"flip@{o}"), value_flip=True))
+                found += 1
+                if found >= 2:
+                    break
+    if role == "data" and len(bounds) >= 2:
+        # footer flips that pq.read_table rejects while ParquetFile.iter_batches goes on without an error
+        # (e.g. a column chunk's value count): the generator APIs must not hand out fewer rows silently
+        for o in range(bounds[1], bounds[-2] if len(bounds) > 2 else n):
+            if o in flips:
+                continue
+            b2 = orig[:o] + bytes([orig[o] ^ 0xFF]) + orig[o + 1:]
+            rb = classify("parquet:raw-batches", b2)
+            if classify("parquet:scan", b2)[0] != "ok" and rb[0] == "ok" and rb[1] < len(inv.file_rows[path]):
+                out.append(dict(damage_by_name(inv, path, f"flip@{o}"), footer_flip=True))
+                break
     for sib in inv.siblings(path):
         out.append({"name": "swap-sibling", "class": "swap", "writes": {path: inv.files[sib], sib: orig}, "sibling": sib})
     sites = {"meta": [("OpExists", 0), ("OpRead", 0), ("OpExists", 1), ("OpRead", 1)],
@@ -902,8 +940,22 @@ def make_table(path: str, shape: List[List[int]], variant: Optional[str]) -> "In
 REDUCED = ("delete", "braces", "swap-sibling", "truncate@1")   # + transient, structural truncations, random-noncaught
 
 
+DATA_APIS = ["Scan", "ScanPar", "Batches", "IterRecords"]
+
+
+def prior_reads(t, api: str) -> List[Dict[str, Any]]:
+    """Session mode: what the handle has already done before the damage happens -- a verified read through the API
+    under test and a verified read through another API (state shared between code paths)."""
+    other = "Batches" if api in ("Scan", "ScanPar", "RowCount") else "Scan"
+    return [run_api(t, api, True), run_api(t, other, True)]
+
+
 def run_table(ctx, path: str, shape: List[List[int]], tag: str, file_limit: Optional[int] = None,
-              variant: Optional[str] = None, reduced: bool = False) -> None:
+              variant: Optional[str] = None, reduced: Any = False, session: bool = False) -> None:
+    """reduced: False | True | a set of roles whose damage list is reduced.
+    session: every (damage, api, verify) case runs on a handle that has ALREADY read the undamaged table (twice);
+    the damage happens between the reads.  The oracle and the model are the same: the outcome of a read depends
+    only on the store at the time of the read."""
     import time
     t_start = time.time()
     inv = make_table(path, shape, variant)
@@ -924,11 +976,25 @@ def run_table(ctx, path: str, shape: List[List[int]], tag: str, file_limit: Opti
         targets = targets + [(HINT_PATH, "pointer")]
     for p, role in targets:
         for d in damages_for(inv, p, ctx.tier, rng):
-            if reduced and not (d["name"] in REDUCED or d["class"] == "transient" or d.get("structural")
-                                or d["name"].startswith("random")):
+            red = (role in reduced) if isinstance(reduced, (set, frozenset)) else bool(reduced)
+            if red and not (d["name"] in REDUCED or d["class"] == "transient" or d.get("structural")
+                            or d["name"].startswith("random")):
                 continue
             targets_dmgs.append((p, role, d))
+    pre = "same-handle:" if session else ""
+    if session:
+        # damage that every parser accepts first: the cases where nothing but a re-hash can notice
+        targets_dmgs.sort(key=lambda x: 0 if x[1] == "none" else 1 if (x[1] == "data" and (x[2]["class"] == "swap" or x[2].get("value_flip"))) else 2)
     for p, role, dmg in targets_dmgs:
+        handles: Dict[Tuple[str, bool], Any] = {}
+        if session and p:
+            for api in APIS:
+                for verify in ((True, False) if api != "RowCount" else (True,)):
+                    t = open_handle(path)
+                    for r0 in prior_reads(t, api):
+                        if r0["ok"] == inv.broken:
+                            ctx.violation(f"healthy-table-misread:prior:{api}", f"undamaged table, prior read gave {r0}", {"table": tag})
+                    handles[(api, verify)] = t
         apply_damage(inv, dmg)
         try:
             recovered = recovered_by_scan(inv)
@@ -939,7 +1005,7 @@ def run_table(ctx, path: str, shape: List[List[int]], tag: str, file_limit: Opti
                             and new_bytes != inv.files[p] and inv.checksummed[p])
             for api in APIS:
                 for verify in ((True, False) if api != "RowCount" else (True,)):
-                    t = open_handle(path)
+                    t = handles.get((api, verify)) or open_handle(path)
                     ins = Instr(t, dmg.get("fault"))
                     try:
                         impl = run_api(t, api, verify)
@@ -952,6 +1018,8 @@ def run_table(ctx, path: str, shape: List[List[int]], tag: str, file_limit: Opti
                     ctx.count(1, (tag, p, dmg["name"], api, verify))
                     case = {"table": tag, "shape": shape, "variant": variant, "role": role, "index": [q for q, r_ in inv.reachable() if r_ == role].index(p) if p and role != "pointer" else 0,
                             "damage": dmg["name"], "api": api, "verify": verify}
+                    if session:
+                        case["session"] = True
                     # ---------------- implementation-only oracle
                     answer_ok = impl["ok"] and ((api == "RowCount" and impl["count"] == len(healthy_rows))
                                                 or (api != "RowCount" and impl["rows"] == healthy_rows))
@@ -966,13 +1034,13 @@ def run_table(ctx, path: str, shape: List[List[int]], tag: str, file_limit: Opti
                             ctx.violation(f"healthy-table-misread:{api}", f"undamaged table: {api} gave {impl}", dict(case, got=impl))
                     elif data_changed and verify and api != "RowCount":
                         if impl["ok"] or impl["kind"] != "ECorrupt":
-                            ctx.violation(f"checksum-not-detected:{dmg['class']}:{api}",
-                                          f"data file bytes changed ({dmg['name']}), verification on, {api} "
+                            ctx.violation(f"{pre}checksum-not-detected:{dmg['class']}:{api}",
+                                          f"{'one handle: verified read, then ' if session else ''}data file bytes changed ({dmg['name']}), verification on, {api} "
                                           f"{'returned ' + str(impl.get('rows')) if impl['ok'] else 'raised ' + impl['exc']} instead of CorruptDataError",
                                           dict(case, got=impl, expect="corrupt"))
                     elif role == "meta" and dmg["class"] == "absent" and impl["ok"]:
                         # with or without a pointer: the newest metadata file is gone and the previous version is served
-                        ctx.violation(KNOWN_KEY + f":{api}", f"current metadata file deleted: {api}(verify={verify}) returned "
+                        ctx.violation(KNOWN_KEY + f":{api}" + (":same-handle" if session else ""), f"current metadata file deleted: {api}(verify={verify}) returned "
                                       f"{impl.get('rows', impl.get('count'))} instead of raising (undamaged answer has {len(healthy_rows)} rows)",
                                       dict(case, got=impl))
                     elif in_scope and touched and dmg["class"] == "transient" and answer_ok and impl["ok"]:
@@ -982,13 +1050,13 @@ def run_table(ctx, path: str, shape: List[List[int]], tag: str, file_limit: Opti
                         retried[f"{role}:{dmg['name']}"] = retried.get(f"{role}:{dmg['name']}", 0) + 1
                     elif in_scope and touched:
                         if impl["ok"]:
-                            key = f"fail-open:{role}:{dmg['class']}:{api}"
-                            what = (f"{role} file {dmg['name']}: {api}(verify={verify}) returned "
+                            key = f"{pre}fail-open:{role}:{dmg['class']}:{api}"
+                            what = (f"{'one handle: read, then ' if session else ''}{role} file {dmg['name']}: {api}(verify={verify}) returned "
                                     f"{impl.get('rows', impl.get('count'))} instead of raising (undamaged answer has {len(healthy_rows)} rows)")
                             ctx.violation(key, what, dict(case, got=impl))
                     elif not touched:
                         if not answer_ok:
-                            ctx.violation(f"untouched-damage-changes-answer:{role}:{dmg['class']}:{api}",
+                            ctx.violation(f"{pre}untouched-damage-changes-answer:{role}:{dmg['class']}:{api}",
                                           f"{role} file {dmg['name']} was not accessed by {api} yet the answer is {impl}", dict(case, got=impl))
                     else:
                         lk = f"{role}:{dmg['class']}:" + ("raises" if not impl["ok"] else "full" if answer_ok else "other-rows")
@@ -1026,7 +1094,7 @@ def run_table(ctx, path: str, shape: List[List[int]], tag: str, file_limit: Opti
             if c["case"]["role"] == "meta" and c["case"]["damage"] == "delete":
                 d["known_key"] = KNOWN_KEY
             bad.append(d)
-    ctx.correspondence("read_current", len(cases), bad)
+    ctx.correspondence("read_current_same_handle" if session else "read_current", len(cases), bad)
 
 
 SHAPES_QUICK = [[[3, 2], [4, 1], [2, 3]]]
@@ -1174,6 +1242,16 @@ def run(ctx) -> None:
     except RuntimeError as e:
         ctx.proof_problems.append("model evaluation failed: " + str(e)[:800])
     try:
+        meta_plane = frozenset(["meta", "list", "manifest", "pointer"])
+        run_table(ctx, os.path.join(ctx.scratch, "s0"), [[2, 2], [3]], "session:s0", session=True,
+                  reduced=(meta_plane if ctx.tier == "quick" else False))
+        if ctx.tier == "thorough":
+            run_table(ctx, os.path.join(ctx.scratch, "s1"), [[2, 1], [2]], "session:json", variant="json", session=True)
+            run_table(ctx, os.path.join(ctx.scratch, "s2"), [[2, 1], [2]], "session:nosum", variant="nosum", session=True,
+                      reduced=meta_plane)
+    except RuntimeError as e:
+        ctx.proof_problems.append("model evaluation failed (same-handle sessions): " + str(e)[:800])
+    try:
         for name, (shape, _tr, full) in VARIANTS.items():
             run_table(ctx, os.path.join(ctx.scratch, f"v-{name}"), shape, f"variant:{name}", variant=name,
                       reduced=(ctx.tier == "quick" or not full),
@@ -1198,6 +1276,10 @@ def execute_case(case: Dict[str, Any], path: str) -> Optional[Tuple[Dict[str, An
     dmg = damage_by_name(inv, p, case["damage"])
     if dmg is None:
         return None
+    held = None
+    if case.get("session"):
+        held = open_handle(path)
+        prior_reads(held, case["api"])
     apply_damage(inv, dmg)
     try:
         if case.get("fresh"):
@@ -1207,7 +1289,7 @@ def execute_case(case: Dict[str, Any], path: str) -> Optional[Tuple[Dict[str, An
             except Exception as e:  # noqa: BLE001
                 impl = {"ok": False, "exc": type(e).__name__, "kind": exc_kind(e)}
         else:
-            t = open_handle(path)
+            t = held or open_handle(path)
             ins = Instr(t, dmg.get("fault"))
             try:
                 impl = run_api(t, case["api"], case["verify"], {"id": (">=", 0)} if case.get("filter") else None)
@@ -1215,7 +1297,7 @@ def execute_case(case: Dict[str, Any], path: str) -> Optional[Tuple[Dict[str, An
                 ins.restore()
     finally:
         undo_damage(inv, dmg)
-    return impl, inv, f"{case['role']} file {p} {dmg['name']}"
+    return impl, inv, ("one handle: two verified reads, then " if held else "") + f"{case['role']} file {p} {dmg['name']}"
 
 
 def case_fails(case: Dict[str, Any], impl: Dict[str, Any], inv: "Inventory") -> bool:
@@ -1236,6 +1318,8 @@ def shrink(ctx) -> None:
         if (key in seen or not isinstance(case, dict)
                 or "damage" not in case or "shape" not in case or "api" not in case):
             continue
+        if "@" in case["damage"] and case["damage"] not in ("truncate@0", "truncate@1"):
+            continue                    # an offset names a different place in a file of another size
         seen.add(key)
         for shape in ([[1]], [[1], [1]], [[1, 1]], [[2], [1]]):
             if size(shape) >= size(case["shape"]):
